@@ -13,7 +13,9 @@ import (
 	"testing"
 )
 
-var c12Names = [8]string{"n1", "n2", "n3", "worker-a", "worker-b", "worker-10", "iris1", "cp-0"}
+// (worker-1 / worker-11 and the 10.0.0.x / 110.0.0.x addresses below: node name + address is ambiguous as plain
+// concatenation, "worker-1"+"110.0.0.3" == "worker-11"+"10.0.0.3")
+var c12Names = [8]string{"n1", "n2", "n3", "worker-1", "worker-11", "worker-10", "iris1", "cp-0"}
 
 const (
 	c12Eligible = "eligible"
@@ -38,7 +40,15 @@ var c12Mechanisms = []string{c12Dead, c12NetUn, c12Excl, c12Desel, c12NoEP, c12G
 // c12Addr returns address list number i of the fixed 64-address palette: 24 IPv4, 24 IPv6, 8 dual-stack
 // IPv4-first, 8 dual-stack IPv6-first.
 func c12Addr(i int) []string {
-	v4 := func(k int) string { return fmt.Sprintf("192.168.%d.%d", 10+k%7, 1+(k*37)%250) }
+	v4 := func(k int) string {
+		switch k % 6 {
+		case 2:
+			return fmt.Sprintf("10.0.0.%d", 1+k/6%5)
+		case 5:
+			return fmt.Sprintf("110.0.0.%d", 1+k/6%5)
+		}
+		return fmt.Sprintf("192.168.%d.%d", 10+k%7, 1+(k*37)%250)
+	}
 	v6 := func(k int) string { return fmt.Sprintf("fc00:f853:ccd:e799::%x", 0x10+k*7) }
 	switch {
 	case i < 24:
@@ -335,6 +345,10 @@ func (x *c12Run) eval(v *directView, svc *directService, intended int, what stri
 	firstIP := directFirstIP(v)
 	c.Eval()
 	x.tl["views-decided"]++
+	if diffs := directTakeHistoryDiffs(); len(diffs) > 0 {
+		c.Violation("l2:decision-depends-on-process-history", fmt.Sprintf("%s: %s", what, diffs[0]), directDetail(c, map[string]any{"view": v, "service": svc, "differences": diffs}))
+		return "", false
+	}
 	detail := func() map[string]any {
 		return directDetail(c, map[string]any{"view": v, "service": svc, "decisions": dec, "oracle_eligible": elig, "announcers": ann, "first_ip": firstIP, "step": what})
 	}
